@@ -715,6 +715,11 @@ class ExprBuilder:
             # multiply-defined or partially written: keep as a place, named if possible
             r = ("place", place_to_str(fn, local, []), fn.locals[local]["ty"])
             if not partial and len(full) > 1 and not user:
+                if fn.locals[local]["ty"] == "bool" and all(d[0] == "assign" and d[3]["k"] == "use" and d[3]["op"].get("k") == "const" for d in full):
+                    # a flag temporary (`matches!(..)`, `a && b`): stays a place so that the dataflow can
+                    # correlate it with the arm that set it
+                    self.memo[key] = r
+                    return r
                 # temporaries assigned on several paths (e.g. `if` results)
                 stack2 = stack + (local,)
                 r = ("phi", local, tuple(self._def_expr(d, depth + 1, stack2) for d in full))
